@@ -959,6 +959,8 @@ class Sim:
                         break
                 self.logev("apierr", proc.label, action[0], type(exc).__name__, str(exc))
                 raise ScriptExit(1, f"{type(exc).__name__}: {exc}") from None
+            self.logev("apicall", proc.label, proc.cwd, action,
+                       [(c.name, c.args) for c in client.calls])
             # send the calls that did not need a reply yet
             for call in client.calls[len(replies) :]:
                 reply = await self._send(proc, call)
